@@ -166,6 +166,23 @@ def check(ctx, rep):
                         "kind serves other bytes than the ones that hand the program the socket itself", key=f"R06l|{f_.qualname}|{norm(c_)[:50]}")
     if not n_sub:
         rep.ok("R06l", "no program is run for a request", "pygopherd/handlers", "", key="R06l|none", nontrivial=False)
+    rep.rule("R06m", "a request body (the Spartan search string) is read to its announced length: read(n) on the buffered request file, never a "
+             "single-shot read (read1, recv, readinto1, os.read), which returns what happens to have arrived", floor=1)
+    n_body = 0
+    for f_ in prog.all_functions():
+        if not (f_.module.name.startswith("pygopherd.protocols") or f_.module.name == "pygopherd.server"):
+            continue
+        for c_ in ast.walk(f_.node):
+            if isinstance(c_, ast.Call) and isinstance(c_.func, ast.Attribute) and "rfile" in norm(c_.func.value) \
+                    and c_.func.attr in ("read", "read1", "readinto", "readinto1", "recv", "peek") and (c_.args or c_.keywords):
+                n_body += 1
+                ok_ = c_.func.attr == "read"
+                rep.add("R06m", f"{f_.qualname}: {norm(c_)[:60]}", ok_, ctx.where(f_, c_),
+                        "" if ok_ else f"`{c_.func.attr}()` returns after one read of the socket: a search string that arrives in a later segment than the request "
+                        "line, or is longer than the buffer, reaches the handlers cut short - the other protocols deliver it whole",
+                        key=f"R06m|{f_.qualname}|{c_.func.attr}")
+    if not n_body:
+        rep.fail("R06m", "request body reads", detail="no protocol reads a request body")
     rep.rule("R06d", "menu MIME type mapped to the protocol's listing type; adjust function total", floor=4)
     pb = ctx.cls("protocols.base.BaseGopherProtocol")
     if pb is None:
